@@ -28,13 +28,35 @@ where
     let tag = format!("[{:?}/{}/{:?}]", cfg.fmt, V::T::NAME, case.crossover);
     let mut st = ReadStats::default();
     let mut nontrivial = false;
+    // a boxed read-only clone taken once and kept across the mutations (re-taken only when the vector itself is
+    // dropped for a re-import): it must keep following the writer's stored contents
+    let mut old = Some(sut.v().read_only_boxed_clone());
+    let mut old_age = 0u32;
     for (i, op) in case.ops.iter().enumerate() {
         match op {
             ROp::Plain(op) => {
+                let reimport = matches!(op, crate::vecmodel::VOp::Reimport);
+                if reimport {
+                    old = None;
+                }
                 sut.apply(op, obs).map_err(|e| format!("{tag} op #{i} {op:?}: {e}"))?;
+                if reimport {
+                    old = Some(sut.v().read_only_boxed_clone());
+                    old_age = 0;
+                } else {
+                    old_age += 1;
+                }
             }
             ROp::Read(req) => {
                 run_reads(&sut, req, case.crossover, obs, &mut st, true).map_err(|e| format!("{tag} read #{i} {req:?}: {e}"))?;
+                if let Some(o) = &old {
+                    if super::readrun::check_kept_clone(&sut, o, req, &mut st).map_err(|e| format!("{tag} read #{i} {req:?} (clone taken {old_age} operations earlier): {e}"))? && old_age > 0 {
+                        obs.label("view:kept-clone");
+                        if obs.has("reset") {
+                            obs.label("view:kept-clone-across-reset");
+                        }
+                    }
+                }
                 if obs.has("state:stored+pushed") && (obs.has("state:holes") || obs.has("range:straddles-pages")) && st.io_backend {
                     nontrivial = true;
                 }
@@ -70,9 +92,9 @@ impl Prop for P {
                     1 => read_req().prop_map(ROp::Read),
                 ];
                 // 1 in 40 cases starts with a vector longer than one file-IO scan buffer (refill boundary)
-                (prop::collection::vec(rop, 0..=n), read_req(), 0u8..40, -8i8..=8).prop_map(move |(mut ops, last, big, d)| {
+                (prop::collection::vec(rop, 0..=n), read_req(), 0u8..40, -8i8..=8, any::<u16>()).prop_map(move |(mut ops, last, big, d, pat)| {
                     if big == 0 {
-                        ops.insert(0, ROp::Plain(crate::vecmodel::VOp::PushRun { n: crate::vecmodel::RunLen::IoBuffer(d), pat: 7 }));
+                        ops.insert(0, ROp::Plain(crate::vecmodel::VOp::PushRun { n: crate::vecmodel::RunLen::IoBuffer(d), pat }));
                         ops.insert(1, ROp::Plain(crate::vecmodel::VOp::Write));
                     }
                     ops.push(ROp::Read(last));
@@ -88,11 +110,11 @@ impl Prop for P {
     }
 
     fn rule() -> String {
-        "C03-style histories (dirty and clean states, with and without deleted slots, all formats of the 35-entry matrix) with read requests interleaved: (from,to) drawn from {0, len, len+k, fraction, page boundary k +-2, stored/pushed edge +-3, usize::MAX} (so empty, reversed, beyond-len, page-straddling, stored/pushed-straddling ranges occur), index lists from the same selectors; mmap/file-IO crossover forced to default / 0 bytes / 64 bytes. Every read path (collect*, collect_range*, collect_one*, first/last, signed ranges, fold/try_fold (+early exit)/for_each (+dyn), read_into (append semantics), cursor next/get/advance/fold/for_each, read_sorted*, min/max/sum (+dyn), get_any_or_read, VecReader, read_at_once, read-only clones, boxed clones, CachedVec (cold and warm), fold_stored_io / fold_stored_mmap) is compared with the model restricted to the range; any panic is a violation. Non-trivial: a read in a state with stored and pushed elements and (deleted slots or a page-straddling range) in a case where the file-IO back-end served at least one read.".into()
+        "C03-style histories (dirty and clean states, with and without deleted slots, all formats of the 35-entry matrix) with read requests interleaved: (from,to) drawn from {0, len, len+k, fraction, page boundary k +-2, stored/pushed edge +-3, usize::MAX} (so empty, reversed, beyond-len, page-straddling, stored/pushed-straddling ranges occur), index lists from the same selectors; mmap/file-IO crossover forced to default / 0 bytes / 64 bytes. Every read path (collect*, collect_range*, collect_one*, first/last, signed ranges, fold/try_fold (+early exit)/for_each (+dyn), read_into (append semantics), cursor next/get/advance/fold/for_each, read_sorted*, min/max/sum (+dyn), get_any_or_read, VecReader, read_at_once, read-only clones (fresh ones, and one boxed clone kept from the start of the case or the last re-import across all later mutations incl. reset), boxed clones, CachedVec (cold and warm), fold_stored_io / fold_stored_mmap) is compared with the model restricted to the range; any panic is a violation. Non-trivial: a read in a state with stored and pushed elements and (deleted slots or a page-straddling range) in a case where the file-IO back-end served at least one read.".into()
     }
 
     fn mandatory_labels() -> &'static [&'static str] {
-        &["range:reversed", "range:beyond-len", "range:empty", "range:straddles-stored/pushed", "range:straddles-pages", "state:holes", "state:stored+pushed", "backend:file-io", "view:read-only-clone", "view:cached", "state:stored_len!=on-disk"]
+        &["range:reversed", "range:beyond-len", "range:empty", "range:straddles-stored/pushed", "range:straddles-pages", "state:holes", "state:stored+pushed", "backend:file-io", "view:read-only-clone", "view:kept-clone", "view:kept-clone-across-reset", "view:cached", "state:stored_len!=on-disk"]
     }
 
     fn assumptions() -> Vec<String> {
